@@ -270,7 +270,7 @@ func isPlainInt(s string) bool {
 // 2); anything that is not a numeral is left alone.
 func refDecimal(s string, numeral bool, args []V) refint.Res {
 	if !numeral {
-		if strings.ContainsAny(s, "0123456789+") {
+		if strings.ContainsAny(s, "0123456789") {
 			return rUn("decimal on a string that looks partly numeric")
 		}
 		return rOK(refint.StrV(s))
